@@ -185,8 +185,28 @@ var (
 	c10Observed = []string{"a", "b", "len", "partial", "w", "raw", "truncate", "contentFor", "zz"}
 )
 
+// swarm: each history draws its own small subsets of keys and values, so that
+// the same few bindings are written, shadowed, nilled and re-bound repeatedly
+var (
+	runKeys []string
+	runVals []int
+)
+
+func drawSwarm(t *rapid.T) {
+	nk := rapid.IntRange(1, len(c10Keys)).Draw(t, "nkeys")
+	perm := rapid.Permutation(append([]string{}, c10Keys...)).Draw(t, "keyperm")
+	runKeys = perm[:nk]
+	nv := rapid.IntRange(2, 9).Draw(t, "nvals")
+	vp := rapid.Permutation([]int{0, 1, 2, 3, 4, 5, 6, 7, 8}).Draw(t, "valperm")
+	runVals = vp[:nv]
+}
+
+func drawKey(t *rapid.T, label string) string {
+	return runKeys[rapid.IntRange(0, len(runKeys)-1).Draw(t, label)]
+}
+
 func drawVal(t *rapid.T, label string) mval {
-	switch rapid.IntRange(0, 8).Draw(t, label) {
+	switch runVals[rapid.IntRange(0, len(runVals)-1).Draw(t, label)] {
 	case 6:
 		return mval{kind: mInt, i: 0} // non-nil "empty" values: Has must be true
 	case 7:
@@ -213,7 +233,10 @@ func drawData(t *rapid.T) (map[string]mval, map[string]interface{}) {
 	m := map[string]mval{}
 	r := map[string]interface{}{}
 	for i := 0; i < n; i++ {
-		k := rapid.SampledFrom(c10Keys[:4]).Draw(t, "dkey")
+		k := drawKey(t, "dkey")
+		if k == "w" {
+			k = "a"
+		}
 		v := drawVal(t, "dval")
 		m[k] = v
 		r[k] = v.real()
@@ -226,6 +249,7 @@ type wrappedKey string
 // c10Run executes one history against plush and the model.
 func c10Run(t *rapid.T) {
 	mp := drawMapOrder(t)
+	drawSwarm(t)
 	maxCtx := 10
 	nops := rapid.IntRange(1, 60).Draw(t, "nops")
 	var live []*mctx
@@ -322,7 +346,7 @@ func c10Run(t *rapid.T) {
 			live = append(live, c)
 		case kind <= 8:
 			c := live[rapid.IntRange(0, len(live)-1).Draw(t, "ctx")]
-			k := rapid.SampledFrom(c10Keys).Draw(t, "key")
+			k := drawKey(t, "key")
 			v := drawVal(t, "val")
 			hist = append(hist, fmt.Sprintf("ctx#%d.Set(%q, %s)", c.id, k, v))
 			c.data[k] = v
